@@ -384,7 +384,7 @@ Qed.
 
 Lemma macro_inv s x : QInv s -> ext_ok s x = true -> QInv (fst (p_run s (macro x))).
 Proof.
-  intros Q E. destruct x as [c|a| | |a|a|a].
+  intros Q E. destruct x as [c|a| | |a|a|a|a].
   - destruct c as [e a|  |h|h|h|a|a].
     + apply macro_le_create; exact Q.
     + apply macro_le_cancel; exact Q.
@@ -400,6 +400,11 @@ Proof.
     rewrite (settle2_quiet s (q_to s Q) (q_from s Q)). exact Q.
   - apply macro_peer_accept; exact Q.
   - apply macro_peer_disconnect; exact Q.
+  - (* PeerAdvOff on a quiet link: no ConnectInd in flight, nothing changes *)
+    rewrite macro_run. cbn [p_step]. rewrite (q_to s Q). cbn [map fst].
+    assert (mkP (p_pend_le s) (p_conns s) (p_open s) [] (p_from s) (p_present s) (p_peer_conn s) (p_peer_req s) = s) as ->.
+    { pose proof (q_to s Q) as E0. destruct s; cbn in *. subst. reflexivity. }
+    rewrite (settle2_quiet s (q_to s Q) (q_from s Q)). exact Q.
   - discriminate.
 Qed.
 
